@@ -212,6 +212,7 @@ def shards(tier, seed):
                 out.append(("mount", iface, name, k, n))
         out.append(("hosts", iface))
     out.append(("threads",))
+    out += [("python-O", ("mount", iface, "flat", 0, 4)) for iface in ("wsgi", "asgi")] + [("python-O", ("mount", "wsgi", "nested", 1, 4)), ("python-O", ("hosts", "asgi"))]
     return out
 
 
@@ -243,6 +244,10 @@ def thread_family(r, tier):
 
 def run_shard(desc, tier):
     r = R()
+    if desc[0] == "python-O":
+        # the same family in an interpreter that runs with assert statements compiled away
+        from ..core import fresh
+        return fresh.optimized(__name__, tuple(desc[1]), tier)
     if desc[0] == "threads":
         thread_family(r, tier)
         return r
@@ -358,6 +363,10 @@ def _untuple(t):
 
 
 def replay(w):
+    import sys as _sys
+    if w.get("optimize") and not _sys.flags.optimize:
+        from ..core import fresh
+        return fresh.replay_optimized(__name__, w)
     r = R()
     if "threads" in w:
         thread_family(r, "quick")
